@@ -219,10 +219,7 @@ fn timestamp(ctx: &LineCtx, refs: &[(String, u64)], microseconds: bool, default:
     let s = parts[5].unwrap_or(0);
     let frac = parts[6].unwrap_or(0);
     let limit = if microseconds { 1_000_000 } else { 1_000 };
-    if parts[6].is_some() && s == 59 && frac >= limit && frac < 2 * limit {
-        // chrono reads this as a leap second
-        return Cell::Any;
-    }
+    // (a fraction of 1000-1999 ms at second 59 is not a leap second notation: it is out of range like anywhere else)
     if frac < 0 || frac >= limit {
         return failure;
     }
@@ -357,7 +354,8 @@ pub fn model_extract(c: &Compiled, line: &str) -> ModelRow {
     for (source, _name, ty, modifier) in &c.columns {
         let default = default_of(modifier);
         let mut cell = match source {
-            Source::Groups(refs) if refs.len() == 1 => single(&ctx, &refs[0].0, refs[0].1, ty, default),
+            // (an array column with one listed group is an array of one element)
+            Source::Groups(refs) if refs.len() == 1 && !ty.ends_with("[]") => single(&ctx, &refs[0].0, refs[0].1, ty, default),
             Source::Groups(refs) => {
                 if let Some(elem) = ty.strip_suffix("[]") {
                     let mut elems = Vec::new();
